@@ -1,4 +1,6 @@
-//! the JSON services over an in-memory actix test service, next to a twin AppState driven in-process
+//! the JSON services over an in-memory actix test service, next to a twin AppState driven in-process, and (when
+//! a loopback socket can be bound) a third AppState behind a real `HttpServer` on 127.0.0.1 that is called
+//! through the repository's own reqwest clients (`uistv1_client::Client`, `jurav1_client::Client`)
 use crate::common::*;
 use crate::server::Srv;
 use crate::{jura, uist};
@@ -55,13 +57,23 @@ fn canon_eq(a: &str, b: &str) -> bool {
 }
 
 pub trait HX {
-    type A: Srv + 'static;
+    type A: Srv + Send + 'static;
     fn configure(cfg: &mut web::ServiceConfig);
     fn insert_body(t: &[&str]) -> Value;
     fn delete_body(t: &[&str]) -> Value;
     /// the in-process tick result as the JSON value the transport is expected to deliver
     fn direct_tick(a: &mut Self::A, bt: u64) -> Option<Value>;
     fn has_now() -> bool;
+    /// the repository's HTTP client for this service
+    type C;
+    fn client(path: String) -> Self::C;
+    /// one call through that client: `Some(Some(v))` = Ok with the typed response re-serialised, `Some(None)` = Err,
+    /// `None` = the client has no such call (or the order cannot be built as a typed `Order`)
+    fn client_call(c: &mut Self::C, op: &str, bt: u64, t: &[&str]) -> impl std::future::Future<Output = Option<Option<Value>>>;
+}
+
+fn tv<T: serde::Serialize, E>(r: Result<T, E>) -> Option<Option<Value>> {
+    Some(r.ok().map(|x| serde_json::to_value(&x).unwrap()))
 }
 
 pub struct U;
@@ -83,6 +95,26 @@ impl HX for U {
     }
     fn has_now() -> bool {
         true
+    }
+    type C = rotala::http::uist::uistv1_client::Client;
+    fn client(path: String) -> Self::C {
+        Self::C::new(path)
+    }
+    async fn client_call(c: &mut Self::C, op: &str, bt: u64, t: &[&str]) -> Option<Option<Value>> {
+        use rotala::http::uist::uistv1_client::UistClient;
+        match op {
+            "INIT" => tv(c.init(t[1].to_string()).await),
+            "INS" => {
+                let px = if t[5] == "-" { None } else { Some(pf(t[5])) };
+                tv(c.insert_order(uist::mk_order(pu(t[2]), t[3], pf(t[4]), px), bt).await)
+            }
+            "DEL" => tv(c.delete_order(pu(t[2]), bt).await),
+            "TICK" => tv(c.tick(bt).await),
+            "FETCH" => tv(c.fetch_quotes(bt).await),
+            "NOW" => tv(c.now(bt).await),
+            "INFO" => tv(c.info(bt).await),
+            _ => None,
+        }
     }
 }
 
@@ -111,6 +143,28 @@ impl HX for J {
     fn has_now() -> bool {
         false
     }
+    type C = rotala::http::jura::jurav1_client::Client;
+    fn client(path: String) -> Self::C {
+        Self::C::new(path)
+    }
+    async fn client_call(c: &mut Self::C, op: &str, bt: u64, t: &[&str]) -> Option<Option<Value>> {
+        use rotala::http::jura::jurav1_client::JuraClient;
+        match op {
+            "INIT" => tv(c.init(t[1].to_string()).await),
+            "INS" => {
+                let body = Self::insert_body(&t[2..]);
+                match serde_json::from_value::<rotala::exchange::jura_v1::Order>(body["order"].clone()) {
+                    Ok(o) => tv(c.insert_order(o, bt).await),
+                    Err(_) => None,
+                }
+            }
+            "DEL" => tv(c.delete_order(pu(t[2]), pu(t[3]), bt).await),
+            "TICK" => tv(c.tick(bt).await),
+            "FETCH" => tv(c.fetch_quotes(bt).await),
+            "INFO" => tv(c.info(bt).await),
+            _ => None,
+        }
+    }
 }
 
 fn quotes_value(q: Vec<PenelopeQuote>) -> Value {
@@ -129,11 +183,34 @@ async fn run_async<H: HX>(ops: &str, annot: &str, imp: &str) {
     let mut out = Out::new(annot, imp);
     let mut datasets: HashMap<String, Penelope> = HashMap::new();
     let lines = read_ops(ops);
+    // the third party: one real server for the whole run, its state replaced at the start of every case
+    let data3: web::Data<Mutex<H::A>> = web::Data::new(Mutex::new(H::A::create(&mut HashMap::new())));
+    let tcp = if std::env::var("VERIF_NO_TCP").is_ok() {
+        None
+    } else {
+        let d = data3.clone();
+        match actix_web::HttpServer::new(move || App::new().app_data(d.clone()).configure(H::configure)).workers(1).disable_signals().bind(("127.0.0.1", 0)) {
+            Ok(s) => {
+                let addr = s.addrs()[0];
+                let server = s.run();
+                let handle = server.handle();
+                actix_web::rt::spawn(server);
+                Some((H::client(format!("http://{addr}")), handle))
+            }
+            Err(_) => None,
+        }
+    };
+    let (mut client, handle) = match tcp {
+        Some((c, h)) => (Some(c), Some(h)),
+        None => (None, None),
+    };
+    out.stats.bump(if client.is_some() { "tcp_server_started" } else { "tcp_unavailable" });
     let mut i = 0;
     while i < lines.len() {
         // setup part of a case
         let mut j = i;
         let mut start: Option<(web::Data<Mutex<H::A>>, H::A)> = None;
+        let mut third: Option<H::A> = None;
         while j < lines.len() {
             let line = &lines[j];
             let t: Vec<&str> = line.split(' ').filter(|x| !x.is_empty()).collect();
@@ -158,9 +235,11 @@ async fn run_async<H: HX>(ops: &str, annot: &str, imp: &str) {
                 "SINGLE" => {
                     let d1 = datasets.get(t[1]).cloned().unwrap();
                     let d2 = d1.clone();
+                    let d3 = d1.clone();
                     let name = t[1].to_string();
-                    match catch(move || (H::A::single(&name, d1), H::A::single(&name, d2))) {
-                        Some((a, b)) => {
+                    match catch(move || (H::A::single(&name, d1), H::A::single(&name, d2), H::A::single(&name, d3))) {
+                        Some((a, b, c)) => {
+                            third = Some(c);
                             start = Some((web::Data::new(Mutex::new(a)), b));
                             out.emit(line, "ok");
                         }
@@ -170,7 +249,8 @@ async fn run_async<H: HX>(ops: &str, annot: &str, imp: &str) {
                     break;
                 }
                 "CREATE" => {
-                    let (mut d1, mut d2) = (datasets.clone(), datasets.clone());
+                    let (mut d1, mut d2, mut d3) = (datasets.clone(), datasets.clone(), datasets.clone());
+                    third = Some(H::A::create(&mut d3));
                     start = Some((web::Data::new(Mutex::new(H::A::create(&mut d1))), H::A::create(&mut d2)));
                     out.emit(line, "ok");
                     j += 1;
@@ -192,12 +272,17 @@ async fn run_async<H: HX>(ops: &str, annot: &str, imp: &str) {
             continue;
         };
         let app = test::init_service(App::new().app_data(data.clone()).configure(H::configure)).await;
+        if let Some(a3) = third {
+            data3.clear_poison();
+            *data3.lock().unwrap_or_else(|e| e.into_inner()) = a3;
+        }
         for line in &lines[j..k] {
             let t: Vec<&str> = line.split(' ').filter(|x| !x.is_empty()).collect();
             // NEWBT has no route: applied to both states directly
             if t[0] == "NEWBT" {
                 let r1 = catch(|| data.lock().unwrap().new_backtest(t[1]));
                 let r2 = catch(|| direct.new_backtest(t[1]));
+                let _ = catch(|| data3.lock().unwrap_or_else(|e| e.into_inner()).new_backtest(t[1]));
                 out.emit(line, &format!("NB {} ; EQ {}", r1.flatten().map(|x| x.to_string()).unwrap_or("-".into()), r1 == r2));
                 continue;
             }
@@ -277,9 +362,44 @@ async fn run_async<H: HX>(ops: &str, annot: &str, imp: &str) {
             if !eq {
                 out.stats.bump("transport_differs_from_in_process");
             }
-            out.emit(&ann, &format!("ST {status} ; J {jtxt} ; EQ {eq} ; SEQ {seq}"));
+            // the same call through the repository's reqwest client against the real server
+            let cl = match client.as_mut() {
+                None => "-".to_string(),
+                Some(c) => match H::client_call(c, t[0], bt, &t).await {
+                    None => "-".to_string(),
+                    Some(got3) => {
+                        out.stats.bump(&format!("client_{}_{}", t[0], if got3.is_some() { "ok" } else { "err" }));
+                        let same = match (&got3, &want) {
+                            (None, None) => true,
+                            (Some(g), Some(w)) => {
+                                let mut w = w.clone();
+                                if let (Some(wo), Some(go)) = (w.as_object_mut(), g.as_object()) {
+                                    let empty: Vec<String> = wo.iter().filter(|(k, v)| !go.contains_key(*k) && v.as_array().map(|a| a.is_empty()).unwrap_or(false)).map(|(k, _)| k.clone()).collect();
+                                    for k in empty {
+                                        wo.remove(&k);
+                                    }
+                                }
+                                canon_eq(&canon(g, ""), &canon(&w, ""))
+                            }
+                            _ => false,
+                        };
+                        let st3 = {
+                            let h = data3.lock().unwrap_or_else(|e| e.into_inner());
+                            canon_eq(&h.snap(bt).unwrap_or_default(), &direct.snap(bt).unwrap_or_default()) && h.clock(bt) == direct.clock(bt) && h.last() == direct.last()
+                        };
+                        if !(same && st3) {
+                            out.stats.bump("repo_client_differs_from_in_process");
+                        }
+                        (same && st3).to_string()
+                    }
+                },
+            };
+            out.emit(&ann, &format!("ST {status} ; J {jtxt} ; EQ {eq} ; SEQ {seq} ; CL {cl}"));
         }
         i = k;
+    }
+    if let Some(h) = handle {
+        h.stop(false).await;
     }
     out.finish();
 }
